@@ -121,7 +121,7 @@ impl<T: Merge> IdRanges<T> {
 
 impl Decode for IdRanges<()> {
     // (a) TOTAL + PROGRESS: every iteration consumes >= 2 bytes (invariant `decoder.rest().len() + 2 * n <= s1.len()`)
-    // (b) ALLOCATION BUDGET: the capacity request goes through vx_budget                         -- FINDING F-DC-1 (see unit.rs)
+    // (b) ALLOCATION BUDGET: the capacity request goes through vx_budget (F-DC-1, repaired: capped at 1024)
     // (c) RESULT SHAPE: every range has start <= end, the value has at most (consumed bytes) / 2 entries; NOT canonical
     // (d) v1: equality with `dec_ranges`
     /*@extract yrs/src/id_set.rs | impl Decode for IdRanges<()> | fn decode | label=idranges_decode | rules=SUB(from=SmallVec::with_capacity;;to=vx_budget(decoder).vec_with_capacity::<(Range<u32>, ())>)
@@ -267,13 +267,13 @@ impl IdSet {
     @*/
 }
 
-/// one (client, ranges) item of an id set: the client as u64 var-int, then the client's ranges
+/// one (client, ranges) item of an id set: the client as u64 var-int (must fit into 53 bits), then the client's ranges
 pub open spec fn dec_idset_item(s: Seq<u8>) -> Option<((ClientID, Seq<Ent<()>>), nat)> {
     match dec_u64(s) {
         None => None,
         Some((client, k)) => match dec_ranges(s.skip(k as int)) {
             None => None,
-            Some((rs, k2)) => Some(((ClientID(client), rs), k + k2)),
+            Some((rs, k2)) => if client_id_53bit(client) { Some(((ClientID(client), rs), k + k2)) } else { None },
         },
     }
 }
@@ -339,7 +339,7 @@ pub open spec fn ranges_ordered(m: Map<ClientID, Seq<Ent<()>>>) -> bool {
 
 impl Decode for IdSet {
     // (a) TOTAL + PROGRESS: every iteration consumes >= 2 bytes (invariant `decoder.rest().len() + 2 * i <= s1.len()`)
-    //     `ClientID::new(client)` on an unchecked u64                                                -- FINDING F-DC-2 (see unit.rs)
+    //     the client id goes through `ClientID::decode` (F-DC-2, repaired): a value >= 2^53 is an error
     // (c) RESULT SHAPE: at most (consumed bytes) / 2 clients, every stored range has start <= end; NOT canonical, empty
     //     per-client entries possible, a repeated client REPLACES the earlier entry
     // (d) v1: equality with `dec_idset`
@@ -408,6 +408,7 @@ impl Decode for IdSet {
         proof {
             axiom_client_id_ord_key_model();
             set.0.lemma_view();
+            lemma_suffix_step(s0, sb, decoder.rest());
         }
     @after 1 `stmt:call clients_mut`
         proof {
